@@ -31,6 +31,8 @@ def txt(n):
         return repr(float(n[1]))
     if k == "str":
         return '"' + n[1] + '"'
+    if k == "regex":
+        return n[1]
     if k == "var":
         return "@" + n[1] + ("." + n[2] if n[2] else "")
     if k == "fn":
@@ -62,6 +64,8 @@ def skeleton(n):
         return "N"
     if k == "str":
         return "S"
+    if k == "regex":
+        return "X"
     if k == "hdr":
         return "#" + n[1]
     if k == "var":
@@ -142,7 +146,7 @@ class Gen:
                 opts.append(("hdr", r.choice(["0", "1"])))
             opts += [("var", v, None) for v in self.nvars]
             return r.choice(opts)
-        f = r.choice(["add", "subtract", "multiply", "int", "length", "count_lines", "line_number", "mod", "round", "minus", "count_scans", "total_lines", "float", "divide"])
+        f = r.choice(["add", "subtract", "multiply", "int", "length", "count_lines", "line_number", "mod", "round", "minus", "count_scans", "total_lines", "float", "divide", "count_headers", "count_headers_in_line"])
         if f in ("add", "multiply"):
             args = [self.num(d - 1), self.num(d - 1)]
             if r.random() < 0.15:
@@ -176,7 +180,9 @@ class Gen:
                 opts.append(("str", r.choice(STR_TERMS)))
             opts += [("var", v, None) for v in self.svars]
             return r.choice(opts)
-        f = r.choice(["concat", "lower", "upper", "strip", "substring"])
+        f = r.choice(["concat", "lower", "upper", "strip", "substring", "end"])
+        if f == "end":
+            return ("fn", "end", [] if r.random() < 0.5 else [("int", r.choice([0, 1, 2]))], [])
         if f == "concat":
             return ("fn", "concat", [self.strv(d - 1), self.strv(d - 1)], [])
         if f == "substring":
@@ -197,8 +203,12 @@ class Gen:
             ]
             opts += [("var", v, None) for v in (self.nvars + self.svars)[:3]]
             return r.choice(opts)
-        fs = ["not", "and", "or", "gt", "lt", "above", "below", "equals", "between", "from_to", "beyond", "in", "empty", "exists", "starts_with", "eqn", "eqs", "all", "missing", "inside", "outside", "range", "after", "before", "eqnn"]
+        fs = ["not", "and", "or", "gt", "lt", "above", "below", "equals", "between", "from_to", "beyond", "in", "empty", "exists", "starts_with", "eqn", "eqs", "all", "missing", "inside", "outside", "range", "after", "before", "eqnn", "regex", "exact"]
         f = r.choice(fs)
+        if f in ("regex", "exact"):
+            rx = ("regex", r.choice(["/^a/", "/b c/", "/[A-Z]+/", "/x$/", "/ab+c/", "/^abc$/", "/[0-9]+/", "/q|Q/"]))
+            tgt = ("hdr", r.choice(STRH + ["a"])) if r.random() < 0.8 else self.strv(d - 1, term_ok=False)
+            return ("fn", f, [tgt, rx] if r.random() < 0.6 else [rx, tgt], [])
         if f == "not":
             x = self.boolv(d - 1)
             if x[0] in ("int", "str"):
